@@ -36,6 +36,10 @@ def corpus():
     # past false alarms of the monitor (must stay silent): a member cancelled inside a disposable's cleanup that catches it
     out.append('{"prog":[["block","async",12,[],[],[["spawn",1,"spawn",[["block","async",2,[],[[1,["wait",1],"ok",[]]],[]]]],'
                '["spawn",2,"spawn",[["try",[["block","async",8,[],[[5,"ok",["wait",5],[]]],[]]]],["await",7]]]]]],"sched":[2,1]}')
+    # … a member that takes its first step after the owner's self-cancel, is cancelled inside its own scope's __aenter__,
+    # catches that and goes on (seed 12)
+    out.append('{"prog":[["block","async",5,[],[],[["spawn",1,"spawn",[["try",[["block","async",1,[],[[1,"ok","ok",[[1,1]]]],[]]]],'
+               '["await",2]]],["cancelself"]]]],"sched":[]}')
     return out
 
 
